@@ -28,6 +28,7 @@ THEOREMS = [
     "C17_cursor_text_roundtrip",
     "C17_reader_source_shape",
     "C17_internal_filter",
+    "C17_serve_source_shape",
 ]
 LEAN_TARGETS = ["WfProps.C17"]
 EXPLANATION = (
@@ -46,7 +47,22 @@ EXPLANATION = (
     "httpx.ReadError and re-chunked at random sizes, compared run by run with the model driver (yielded sequence/event "
     "pairs, final last_sequence, cursors sent, result kind); the framing alone compared byte for byte; hand-written "
     "malformed bodies compared likewise. Search: exactly-once / order / last_sequence / cursor monitors stated directly "
-    "on the observed real runs."
+    "on the observed real runs. "
+    "Extension: (a) the log may GROW while the client streams -- runLive plays each scripted connection against the log as the server "
+    "knows it when that connection ends; C17_live_never_duplicates / C17_live_exactly_once / C17_last_sequence_at_every_yield hold for "
+    "every history of appends (between connections and while one is open) and every script, run being the constant history "
+    "(C17_run_is_live); (b) C17_reconnect_cursors: one request per connection, the first with the start cursor, each later one with the "
+    "last_sequence of a moment of the stream that only moves forward, never going back; (c) the include_internal filter of "
+    "_resolve_event_stream is inside the model (204 test on all remaining events, frames for the shown ones): every theorem now "
+    "quantifies over logs with InternalDispatchEvents and both flag values, C17_internal_filter says hidden events are never yielded and "
+    "cost no shown event; (d) the client's line iterator chunk by chunk (iterLines; C17_chunking_irrelevant: any chunking, empty chunks "
+    "included, gives the lines of the whole text), str(last_sequence) -> int(after_sequence) (C17_cursor_text_roundtrip), the consumer "
+    "(streamLast); (e) regenerated and pinned: statement shapes of _iter_sse_lines, EventStream, the reconnect loop in source order, "
+    "status dispatch, except clauses, request parameter / header keys, the 204 of _stream_events, the normalised source of "
+    "_resolve_event_stream from the 204 test on, the set of characters int() skips (measured on the runtime: not U+001C..U+001F). "
+    "New correspondence streams: live (real MemoryWorkflowStore revealed step by step, appends GROW_AT virtual seconds into an open "
+    "connection), internal (real UnhandledEvents and hand-built envelopes, include_internal_events false/true on the real client), "
+    "framing with hidden events, _iter_sse_lines alone on arbitrary chunkings with and without a clean end, int() / str() alone."
 )
 ASSUMPTIONS = [
     "EventEnvelopeWithMetadata.model_validate_json is the model parameter `valid`; theorems assume it accepts every payload the server sends "
@@ -55,7 +71,12 @@ ASSUMPTIONS = [
     "model_dump_json) is checked on every generated payload, not proved",
     "log hypothesis (sequences strictly increasing, a terminal event only in last position) belongs to C16; generated logs satisfy it",
     "UTF-8 incremental decoding (httpx TextDecoder: an incomplete trailing character never reaches the reader) is modelled by takeBytes",
-    "the 'now' cursor, include_internal filtering, aclose()/cancellation are outside the model",
+    "the 'now' cursor and aclose()/cancellation are outside the model",
+    "a growing log is modelled by one snapshot per connection (the log and status the server knows when that connection ends); the 204 "
+    "decision, taken when the connection starts, is read off the same snapshot: exact for appends between connections, and for appends "
+    "while a connection is open as long as the run's status turns terminal no earlier than its last append (how the harness scripts it)",
+    "the include_internal flag is a field of the server snapshot (the reader sends the same flag on every connection: hypothesis Grows.view, "
+    "pinned by the generated requestParams / loop shape)",
     "starlette's StreamingResponse (str chunk -> UTF-8 bytes, chunked transfer) is replaced by the scripted transport",
     "asyncio scheduling between the reader task and the consumer is exercised only on the virtual-time loop",
 ]
@@ -635,9 +656,9 @@ def run(env: Env) -> Outcome:
     for _ in range(env.budget(350, 6000)):
         cases.append(gen_raw_case(rng))
     rng_live = random.Random(rng.randrange(1 << 30))
-    for _ in range(env.budget(450, 9000)):
+    for _ in range(env.budget(300, 6000)):
         cases.append(gen_live_case(rng_live))
-    for _ in range(env.budget(400, 8000)):
+    for _ in range(env.budget(300, 5000)):
         cases.append(gen_case(rng_live, "internal"))
 
     ops: list[str] = []
